@@ -666,7 +666,8 @@ fn check_records_only_by_admins(prop: &str, w: &World, s: &Step, ok: bool, pre: 
     for (name, a, b, spending_allowed) in [("allowance", &pre.raw_allow, &post.raw_allow, true), ("permission", &pre.raw_perm, &post.raw_perm, false)] {
         for k in a.keys().chain(b.keys()) {
             if a.get(k) != b.get(k) {
-                if spending_allowed && ok && matches!(s.call, Call::Execute(_)) && k == own {
+                // (spending rewrites an existing record; it neither creates nor deletes one)
+                if spending_allowed && ok && matches!(s.call, Call::Execute(_)) && k == own && a.contains_key(k) && b.contains_key(k) {
                     continue;
                 }
                 return Err(v(prop, "record-changed-by-non-admin", format!("{at}: the stored {name} record of {k} was {} in a call that is not a successful call of a current admin (admins {:?})", if b.contains_key(k) { if a.contains_key(k) { "rewritten" } else { "created" } } else { "deleted" }, pre.admins)));
@@ -1213,6 +1214,11 @@ fn check_c07(w: &World, s: &Step, resp: Option<&Response>, pre: &Obs, post: &Obs
         ctx.count(&format!("msg_{k}_{}_{}", if admin { "admin" } else { "nonadmin" }, if ok { "relayed" } else { "refused" }));
     }
     let forbidden = if admin || !w.subkeys { None } else { first_forbidden(msgs, &pre.allow[s.sender], &pre.perms[s.sender]) };
+    // "within its unexpired allowance": whether the allowance has run out is judged by the documented
+    // Expiration semantics (expired once block >= expiry), not by what the contract's queries still show
+    if ok && !admin && w.subkeys && msgs.iter().any(|m| matches!(m, CosmosMsg::Bank(BankMsg::Send { .. }))) && is_expired_ns(&pre.allow[s.sender].expires, w.d.height, w.d.now_ns()) {
+        return Err(v(prop, "send-after-expiry", format!("{at}: a bank send was relayed for a subkey whose allowance expired ({:?}) at height {} time {} ns", pre.allow[s.sender].expires, w.d.height, w.d.now_ns())));
+    }
     if !admin {
         let distinct: BTreeSet<&&str> = s.kinds.iter().collect();
         if msgs.len() >= 2 && distinct.len() >= 2 {
